@@ -52,6 +52,7 @@ type LocV struct {
 	Steps []step
 	T     types.Type // pointee type
 	whole bool       // (modifies clauses) every leaf under the prefix
+	everyRef bool    // (modifies clauses) all(T): at every reference, not only Ref
 }
 
 type cellKey struct {
@@ -187,6 +188,10 @@ func (c *Ctx) StrLit(s string) Term {
 		}
 		c.strLits[s] = name
 		var ax []string
+		if s == "" {
+			// the empty string is the only string of length zero
+			ax = append(ax, fmt.Sprintf("(forall ((s Str)) (! (=> (= (str.len_ s) 0) (= s %s)) :pattern ((str.len_ s))))", name))
+		}
 		ax = append(ax, fmt.Sprintf("(= (str.len_ %s) %d)", name, len(s)))
 		if len(s) <= 64 {
 			for i := 0; i < len(s); i++ {
